@@ -2,6 +2,7 @@
 from .. import configs
 from ..algorun import bystander_tasks, replay_algo, run_algo_task
 from ..refs.tree_bandits import TreeBanditOracle
+from ..world import QueryAfterRound
 
 ID = "C05"
 WHICH = "C05"
@@ -53,6 +54,12 @@ def tasks(tier, seed, which="C05"):
                 ts.append({"kind": "algo", "label": "full3/" + lab, "cfg": cfg, "mode": "full", "T": 6 if tier == "quick" else 8,
                            "R": list(configs.R3), "rng_k": 1 if d2 else None, "cost": 3})
                 ts += bystander_tasks(lab, configs.shifted(cfg), configs.R3, T_long=70, k=1 if tier == "quick" else 2)
+                # get_last_point() asked after a round (environment move, a budgeted choice point like a reward departure): the index
+                # must keep following the true round counter
+                ts.append({"kind": "algo", "label": "devq/" + lab, "cfg": cfg, "mode": "dev", "T": 70, "R": list(configs.R2), "base": "noisy",
+                           "k": 1 if tier == "quick" else 2, "max_exec": 2000 if tier == "quick" else 30000, "cost": 10, "query": True})
+                ts.append({"kind": "algo", "label": "fullq/" + lab, "cfg": cfg, "mode": "full", "T": 6 if tier == "quick" else 8, "R": list(configs.R2),
+                           "query_k": 1 if tier == "quick" else 2, "cost": 3, "query": True})
                 for base in (("peak", "alt", "off8") if tier == "quick" else ("peak", "alt", "off8", "zero", "twopeak", "negpeak")):
                     ts.append({"kind": "algo", "label": "dev/%s/%s" % (lab, base), "cfg": cfg, "mode": "dev", "T": 70,
                                "R": list(configs.R3), "base": base, "k": 1 if tier == "quick" else 2,
@@ -64,6 +71,10 @@ def _mk():
     return [TreeBanditOracle(WHICH)]
 
 
+def _mkq():
+    return [QueryAfterRound(), TreeBanditOracle(WHICH)]
+
+
 def _nontrivial(ctx):
     deep = [i for i, c in enumerate(ctx.rec.calls) if c["depth_before"] >= 1]
     if deep:
@@ -72,11 +83,11 @@ def _nontrivial(ctx):
 
 
 def run_task(task):
-    return run_algo_task(task, _mk, nontrivial=_nontrivial)
+    return run_algo_task(task, _mkq if task.get("query") else _mk, nontrivial=_nontrivial)
 
 
 def replay(task, script):
-    return replay_algo(task, script, _mk)
+    return replay_algo(task, script, _mkq if task.get("query") else _mk)
 
 
 def bounds(tier):
